@@ -696,6 +696,39 @@ example : Agree oNoHost rqA rqB ∧ ¬ Agree oAll rqA rqB := by
   constructor
   · simp [Agree, oNoHost, rqA, rqB, contentOf]
   · simp [Agree, oAll, rqA, rqB]
+/-! audit round 6: further non-vacuity witnesses (added by the auditor) -/
+-- `differing_field_different_key`: all five hypotheses on two multipart requests whose non-ignored field `w` differs
+-- (1 vs 2) while payload parameter `x` is ignored — and the conclusion
+private def mpBody3 : Bytes := [45, 45, 88, 88, 13, 10, 67, 111, 110, 116, 101, 110, 116, 45, 68, 105, 115, 112, 111, 115, 105, 116, 105, 111, 110, 58, 32, 102, 111, 114, 109, 45, 100, 97, 116, 97, 59, 32, 102, 105, 108, 101, 110, 97, 109, 101, 61, 34, 117, 34, 59, 32, 110, 97, 109, 101, 61, 34, 119, 34, 13, 10, 13, 10, 50, 13, 10, 45, 45, 88, 88, 45, 45, 13, 10]
+private def oPP : HashOpts := ⟨false, false, false, [], [[120]], []⟩
+private def rqM1 : ReqF := { rqA with boundary := some [88, 88], body := some mpBody1 }
+private def rqM3 : ReqF := { rqA with boundary := some [88, 88], body := some mpBody3 }
+example : oPP.ignoreContent = false ∧ oPP.ignorePayloadParams ≠ [] ∧ rqM1.multipart ≠ [] ∧ rqM3.multipart ≠ [] ∧
+    rqM1.multipart.filter (fun p => !oPP.ignorePayloadParams.contains p.1)
+      ≠ rqM3.multipart.filter (fun p => !oPP.ignorePayloadParams.contains p.1) ∧
+    keyOf oPP rqM1 ≠ keyOf oPP rqM3 := by decide +kernel
+-- … while ignoring the field `w` itself makes the two requests share a key (the model is not constant in the option)
+example : keyOf ⟨false, false, false, [], [[119]], []⟩ rqM1 = keyOf ⟨false, false, false, [], [[119]], []⟩ rqM3 := by decide +kernel
+-- `equal_keys_in_recording_order` / `at_most_once_without_reuse`: the response-less recording with the key is dropped
+-- together with the served one; a recording loaded twice is served twice and no more (the third request finds the
+-- replay exhausted = inactive and is forwarded; with another recording still pending it gets the configured status)
+example : (run h0 0 [.load [r4, r1, r3], .request 10 nr]).1.recorded = [r3] := by decide
+example : (run h0 0 [.load [r1, r1], .request 10 nr, .request 10 nr, .request 10 nr]).2
+    = [.served r1, .served r1, .forwarded] := by decide
+example : (run h0 0 [.load [r1, r1, r2], .request 10 nr, .request 10 nr, .request 10 nr]).2
+    = [.served r1, .served r1, .status 404] := by decide
+-- `reindex_preserves_multiset` on a state with something already served: two pending recordings collapse into one bucket
+example : (configure h0 (run h0 0 [.load [r1, r2, r3], .request 20 nr]).1 1).flowmap = [(0, [r1, r3])] ∧
+    count (configure h0 (run h0 0 [.load [r1, r2, r3], .request 20 nr]).1 1) = 2 := by decide
+-- `unmatched_as_configured`: inactive replay forwards; the deprecated kill_extra wins over a configured status
+example : (run h0 0 [.request 10 nr]).2 = [.forwarded] ∧ (run h0 0 [.load [r1], .clear, .request 10 nr]).2 = [.forwarded] ∧
+    (run h0 0 [.load [r1], .request 20 ⟨false, false, true, .status 404⟩]).2 = [.killed] := by decide
+-- `header_lookup_spec` / the `useHeaders` part of the key: case-insensitive names, ", " folding, and a differing
+-- configured header separates two otherwise equal requests
+example : hdrGet [([65], [49]), ([97], [50])] [65] = some [49, 44, 32, 50] ∧ hdrGet [([65], [49])] [66] = none := by decide
+example : keyOf ⟨false, false, false, [], [], [[120]]⟩ { rqA with headers := [([88], [49])] }
+    ≠ keyOf ⟨false, false, false, [], [], [[120]]⟩ { rqA with headers := [([88], [50])] } ∧
+    keyOf oAll { rqA with headers := [([88], [49])] } = keyOf oAll { rqA with headers := [([88], [50])] } := by decide
 end
 
 end MitmVerif.Props.C52
